@@ -189,7 +189,10 @@ CLAIMED = {
         "with exactly that value - as a 32-bit int iff it fits and there is no L/LL suffix, else 64-bit; a hex literal is "
         "accepted iff it spells at most 32 (with suffix 64) bits and the stored two's-complement pattern is that number; "
         "hex tokens carry format HEX through the parser; a float literal is stored as atof(lexeme) and rejected iff that "
-        "is infinite. Tied to /repo by token- and setting-level correspondence on ~2000 boundary spellings per run and a "
+        "is infinite; the decimal-to-binary conversion the model runs for atof (b64_of_decimal, the model of glibc's strtod) "
+        "is proved correctly rounded (RoundSpec.v): round-half-even of x*2^t to 53 bits or the denormal grid with the decoded "
+        "bit pattern, one rounding for a decimal of at most 800 significant digits, the sticky-bit quotient for negative "
+        "exponents rounds like the exact quotient. Tied to /repo by token- and setting-level correspondence on ~2000 boundary spellings per run and a "
         "model-free exact-value oracle (Python integers / correctly rounded float()).",
    note="PARTIAL for the float clause: that glibc strtod is correctly rounded is a libc contract in the trusted base, "
         "validated differentially on every run, not proved. The link lexeme -> rule is C18.",
